@@ -14,13 +14,13 @@ from unified_planning.model import Fluent, InstantaneousAction, Object, Problem,
 COND_NAMES = {
     0: "b", 1: "not b", 2: "p(x)", 3: "x == o1", 4: "n < c", 5: "c <= n", 6: "b or p(x)", 7: "exists y:S. p(y)",
     8: "forall y:T. p(y) or b", 9: "n <= u (u undefined)", 10: "w(x) == o1", 11: "p(w(x))", 12: "not p(x)", 13: "n + 1 <= c",
-    14: "F(n) < c (interpreted function)",
+    14: "F(n) < c (interpreted function)", 15: "st(x) (static Boolean fluent, default true)", 16: "exists y:T. p(y)",
 }
 EFF_NAMES = {
     0: "b := false", 1: "when C: b := true", 2: "n += d", 3: "n -= d", 4: "n := c1", 5: "when C: n := c2",
     6: "forall y:T. p(y) := v", 7: "w(x) := x", 8: "n := n + d", 9: "when C: n += d", 10: "p(x) := true", 11: "u := c1",
     12: "b := true", 13: "forall y:T. when p(y): p(y) := false", 14: "when C: w(x) := o1", 15: "p(x) := false",
-    16: "when C: n -= d2", 17: "n := u",
+    16: "when C: n -= d2", 17: "n := u", 18: "u -= d", 19: "u += d",
 }
 INV_NAMES = {0: "always n <= c3", 1: "always b or p(o1)"}
 TRAJ_NAMES = {0: "sometime b", 1: "at-most-once p(o1)", 2: "sometime-before b p(o1)", 3: "sometime-after p(o1) b",
@@ -80,6 +80,7 @@ def _build(ctx, sk, env=None):
         ctx.assume(lb <= ub)
     n = Fluent(nm("n"), tm.IntType(lb, ub), environment=env)
     g.b, g.p, g.w, g.u, g.n, g.lb, g.ub = b, p, w, u, n, lb, ub
+    g.st = None
     F = None
     uses = set(sk.get("pre", [])) | set(sk.get("goal", [])) | {sk.get("effcond", 2), sk.get("effcond2", 0)}
     if 14 in uses:
@@ -91,13 +92,19 @@ def _build(ctx, sk, env=None):
     _c = set(sk.get("pre", [])) | set(sk.get("goal", [0])) | set(sk.get("pre2", [])) | {sk.get("effcond", 2), sk.get("effcond2", 0)}
     _e = set(sk["effs"]) | set(sk.get("second_action") or [])
     minimal = sk.get("minimal", False)
-    need_u = (not minimal) or bool(_c & {9}) or bool(_e & {11, 17})
+    need_u = (not minimal) or bool(_c & {9}) or bool(_e & {11, 17, 18, 19})
+    need_st = bool(_c & {15})
+    if need_st:
+        g.st = Fluent(nm("st"), tm.BoolType(), environment=env, **{nm("x"): T})
+        prob.add_fluent(g.st, default_initial_value=True)
     need_w = (not minimal) or bool(_c & {10, 11}) or bool(_e & {7, 14})
     need_n = (not minimal) or bool(_c & {4, 5, 9, 13, 14}) or bool(_e & {2, 3, 4, 5, 8, 9, 16, 17}) or 0 in sk.get("inv", [])
     g.has = dict(u=need_u, w=need_w, n=need_n)
     for fl, need in ((b, True), (p, True), (w, need_w), (u, need_u), (n, need_n)):
         if need:
             prob.add_fluent(fl)
+    if need_st and sk.get("st_false_for_o1", True):
+        prob.set_initial_value(em.FluentExp(g.st, [em.ObjectExp(o1)]), em.FALSE())  # the only explicit value; the rest is the default
     prob.add_objects(objs)
     g.problem = prob
     rng = sk.get("const_range", (-2, 5))
@@ -144,6 +151,11 @@ def _build(ctx, sk, env=None):
             return em.LE(em.Plus(em.FluentExp(n), em.Int(1)), em.Int(C("c")))
         if i == 14:
             return em.LT(F(em.FluentExp(n)), em.Int(C("c")))
+        if i == 15:
+            return em.FluentExp(g.st, [x])
+        if i == 16:
+            y = Variable("y", T, env)
+            return em.Exists(em.FluentExp(p, [em.VariableExp(y)]), y)
         raise ValueError(i)
 
     g.cond = cond
@@ -190,6 +202,10 @@ def _build(ctx, sk, env=None):
                 act.add_decrease_effect(em.FluentExp(n), em.Int(C("d2")), ec())
             elif i == 17:
                 act.add_effect(em.FluentExp(n), em.FluentExp(u))
+            elif i == 18:
+                act.add_decrease_effect(em.FluentExp(u), em.Int(C("d")))
+            elif i == 19:
+                act.add_increase_effect(em.FluentExp(u), em.Int(C("d")))
             else:
                 raise ValueError(i)
 
@@ -271,6 +287,9 @@ _BASE = [
     # arithmetic nodes over n: n is bounded on both sides (the type checker mixes float("inf") with symbolic bounds otherwise)
     (dict(pre=[13], effs=[8], inv=[0], n_bounds="both", goal=[5]), [["x0", "d"], ["d", "c3"], ["x0", "lb"]]),  # fluent-dependent assignment + invariant
     (dict(pre=[4], effs=[2, 12], n_bounds="lower", goal=[5]), [["x0", "lb"]]),                        # half-bounded type
+    (dict(pre=[], effs=[3, 12], n_bounds="upper", goal=[0], values={"x0": -1}), [["d", "ub"]]),       # upper bound around 0, decrease by a negative constant
+    (dict(pre=[], effs=[2, 12], n_bounds="lower", goal=[0], values={"x0": 1}), [["d", "lb"]]),        # lower bound around 0, increase by a negative constant
+    (dict(pre=[2], effs=[12, 10], goal=[0, 12]), [[]]),                                               # two goals: the second can fail alone
     (dict(pre=[], effs=[5, 2], effcond=0, goal=[0]), [["c2", "d"]]),                                 # conditional assignment + increase on one fluent
     (dict(pre=[12], effs=[17, 12], goal=[0]), [["x0"]]),                                             # effect value reads an undefined fluent
     (dict(pre=[], effs=[5, 16, 0], effcond=4, n_bounds="both", goal=[1]), [["x0", "c2"], ["x0", "c"], ["d2", "lb"]]),  # conditional assign + decrease
